@@ -662,7 +662,10 @@ def r5(cx):
             if not any(Q.operand_local(a) in tainted for a in rt['a'] if Q.operand_local(a) is not None):
                 cx.violation(b.root, 'run-outside-guard-env', 'the command is given an environment that does not derive from the guard',
                              loc=b.loc(rt))
+    built = {b.crate for b in F.bodies.values()}
     for fn in GUARD_USERS:
+        if fn.split('::')[0] not in built and not fn.startswith('<'):
+            continue        # a partial feature configuration that does not build the crate of this command kind
         if fn not in seen:
             cx.violation(fn, 'guard-missing', 'this command kind no longer creates a RedirGuard: its redirections would not be undone',
                          loc=None)
